@@ -120,3 +120,17 @@ Theorem C01_mapor_converge (H : list (oprec (mop oop))) (s1 s2 : cmap orswot) (K
      eclock e1 = eclock e2 /\ oentries (eval e1) = oentries (eval e2)).
 Proof. exact (mapor_converge H s1 s2 K). Qed.
 Print Assumptions C01_mapor_converge.
+
+(** Map<K1, Map<K2, Orswot>> (nesting depth 2): equal knowledge reached through any causal delivery orders gives the same
+    outer keys, clocks and entry clocks, the same inner key tables and the same member tables *)
+From Crdt Require Import spec.MapMapOrswotSpec proofs.MapMapOrswot.
+Theorem C01_map2_converge (H : list (oprec (mop (mop oop)))) (s1 s2 : cmap (cmap orswot)) (K : gset nat) :
+  m2hist_ok H -> m2reach H s1 K -> m2reach H s2 K ->
+  (forall k1, m2_state_inner_clocks s1 k1 = m2_state_inner_clocks s2 k1) /\
+  (forall k1 k2, m2_state_entries s1 k1 k2 = m2_state_entries s2 k1 k2) /\
+  dom (mentries s1) = dom (mentries s2) /\
+  mclock s1 = mclock s2 /\
+  (forall k, mentry_clock s1 k = mentry_clock s2 k) /\
+  mdeferred s1 = mdeferred s2.
+Proof. exact (map2_converge H s1 s2 K). Qed.
+Print Assumptions C01_map2_converge.
